@@ -27,45 +27,78 @@ impl Drop for Scratch {
     fn drop(&mut self) { let _ = std::fs::remove_dir_all(&self.0); }
 }
 
-/// name of the input file of a file-level call: plain FASTA, or (VERIF_INPUT_GZM set) a gzip file of several members
-pub fn in_name() -> &'static str { if std::env::var("VERIF_INPUT_GZM").is_ok() { "in.fa.gz" } else { "in.fa" } }
+/// container of the input file of a file-level call, chosen by VERIF_INPUT_KIND:
+///   (unset) plain FASTA `in.fa`; `gzm` gzip of several members; `fq` FASTQ; `fqgz` gzipped FASTQ (.fastq.gz);
+///   `wrap` FASTA wrapped at 7 columns (.fasta); `crlf` FASTA with CRLF line ends and no final newline (.fna)
+pub fn in_kind() -> String { std::env::var("VERIF_INPUT_KIND").unwrap_or_default() }
+pub fn in_name() -> &'static str {
+    match in_kind().as_str() { "gzm" => "in.fa.gz", "fq" => "in.fq", "fqgz" => "in.fastq.gz", "wrap" => "in.fasta", "crlf" => "in.fna", _ => "in.fa" }
+}
 
 pub fn write_fasta(path: &str, recs: &[Vec<u8>]) {
+    use std::io::Write;
+    let kind = in_kind();
     let ser = |from: usize, to: usize| -> Vec<u8> {
         let mut s: Vec<u8> = Vec::new();
         for (i, r) in recs.iter().enumerate().skip(from).take(to - from) {
-            s.extend_from_slice(format!(">r{}\n", i).as_bytes());
-            s.extend_from_slice(r);
-            s.push(b'\n');
+            match kind.as_str() {
+                "fq" | "fqgz" => {
+                    s.extend_from_slice(format!("@r{} length={}\n", i, r.len()).as_bytes());
+                    s.extend_from_slice(r);
+                    s.extend_from_slice(b"\n+\n");
+                    for j in 0..r.len() { s.push(b"@I+5;>#"[(j + r.len()) % 7]); }
+                    s.push(b'\n');
+                }
+                "wrap" => {
+                    s.extend_from_slice(format!(">r{} wrapped\n", i).as_bytes());
+                    for ch in r.chunks(7) { s.extend_from_slice(ch); s.push(b'\n'); }
+                }
+                "crlf" => {
+                    s.extend_from_slice(format!(">r{}\r\n", i).as_bytes());
+                    s.extend_from_slice(r);
+                    if i + 1 < recs.len() { s.extend_from_slice(b"\r\n"); }
+                }
+                _ => {
+                    s.extend_from_slice(format!(">r{}\n", i).as_bytes());
+                    s.extend_from_slice(r);
+                    s.push(b'\n');
+                }
+            }
         }
         s
     };
-    if path.ends_with(".gz") {
+    let gz = |data: &[u8]| -> Vec<u8> {
+        let mut e = flate2::write::GzEncoder::new(Vec::new(), flate2::Compression::default());
+        e.write_all(data).unwrap();
+        e.finish().unwrap()
+    };
+    if kind == "gzm" {
         // three members (records split between them) and an empty one, as `cat a.gz b.gz c.gz` / bgzip produce
-        use std::io::Write;
         let n = recs.len();
         let cuts = [0, (n + 2) / 3, (2 * n + 2) / 3, n];
         let mut out: Vec<u8> = Vec::new();
-        for w in cuts.windows(2) {
-            let mut e = flate2::write::GzEncoder::new(Vec::new(), flate2::Compression::default());
-            e.write_all(&ser(w[0], w[1])).unwrap();
-            out.extend(e.finish().unwrap());
-        }
-        let e = flate2::write::GzEncoder::new(Vec::new(), flate2::Compression::default());
-        out.extend(e.finish().unwrap());
+        for w in cuts.windows(2) { out.extend(gz(&ser(w[0], w[1]))); }
+        out.extend(gz(b""));
         std::fs::write(path, out).unwrap();
+    } else if kind == "fqgz" {
+        std::fs::write(path, gz(&ser(0, recs.len()))).unwrap();
     } else {
         std::fs::write(path, ser(0, recs.len())).unwrap();
     }
 }
 
-/// run `f` with the input written as a multi-member gzip file; a witness gets the container noted
-pub fn with_gzm(f: impl FnOnce() -> Option<Vec<(String, String)>>) -> Option<Vec<(String, String)>> {
-    std::env::set_var("VERIF_INPUT_GZM", "1");
+/// run `f` with the input written in another container; a witness gets the container noted.
+/// FASTQ cannot hold a record without bases: such cases are skipped for the FASTQ kinds.
+pub fn with_kind(kind: &str, recs: &[Vec<u8>], f: impl FnOnce() -> Option<Vec<(String, String)>>) -> Option<Vec<(String, String)>> {
+    if kind.starts_with("fq") && recs.iter().any(|r| r.is_empty()) { return None; }
+    if kind.is_empty() { return f(); }
+    std::env::set_var("VERIF_INPUT_KIND", kind);
     let w = f();
-    std::env::remove_var("VERIF_INPUT_GZM");
-    w.map(|mut w| { w.push(("input_gzm".into(), "the input is a gzip file of several members (records split between them) plus an empty member".into())); w })
+    std::env::remove_var("VERIF_INPUT_KIND");
+    w.map(|mut w| { w.push(("input_kind".into(), kind.to_string())); w })
 }
+pub const KINDS: [&str; 5] = ["gzm", "fq", "fqgz", "wrap", "crlf"];
+pub fn with_gzm(f: impl FnOnce() -> Option<Vec<(String, String)>>) -> Option<Vec<(String, String)>> { with_kind("gzm", &[], f) }
 
 /// When VERIF_STALE_OUTPUT is set, leave a longer result of an "earlier run" at the output path before the call
 pub fn maybe_stale(out: &str) {
